@@ -50,8 +50,78 @@ let parse_batches (s : string) : (n * n) list list =
             | None -> failwith ("bad run " ^ r)) (String.split_on_char '.' b))
         (String.split_on_char ';' s))
 
+(* ---- U: the MetadataUpdate merge functions ---- *)
+let parse_mops (s : string) : mop list =
+  List.map (fun c -> match c with
+      | 'f' -> MFull (false, false) | 'F' -> MFull (true, false)
+      | 'g' -> MFull (false, true) | 'G' -> MFull (true, true)
+      | 'c' -> MRoutes | 't' -> MTopology
+      | 'u' -> MUp (n_of_int 1) | 'v' -> MUp (n_of_int 2)
+      | 'd' -> MDown (n_of_int 1) | 'e' -> MDown (n_of_int 2)
+      | 'k' -> MTake
+      | _ -> failwith "bad update op") (chars_of_string s)
+
+let show_view (slot : mupdate option) : string =
+  let ((((((kind, mv), pv), rc), routes), resp), hints) = view slot in
+  let l v = if v = [] then "-" else String.concat "." (List.map hex_of_n v) in
+  let hs = if hints = [] then "-" else
+      String.concat "." (List.map (fun (a, up) -> hex_of_n a ^ (if up then "+" else "-")) hints) in
+  Printf.sprintf "%s:%s:%s:%d:%s:%s:%s" (hex_of_n kind) (hex_of_n mv) (hex_of_n pv) (if rc then 1 else 0) (l routes) (hex_of_n resp) hs
+
 let verdict case impl =
   match case, impl with
+  | ("S" | "Z") :: _, "skip-env" :: _ -> "ok skip-env"
+  | ["U"; script], [views; statuses] ->
+    let ops = parse_mops script in
+    let states = trace_mops (n_of_int 1) ops h_init in
+    let model_views = String.concat "," (List.map (fun st -> show_view st.h_slot) states) in
+    let final = List.fold_left (fun _ st -> st) h_init states in
+    let model_st = let l = model_status final in
+      if l = [] then "-" else String.concat "" (List.map hex_of_n l) in
+    if views = model_views && statuses = model_st then "ok"
+    else begin
+      (* the property predicate on the implementation's own report: no response channel dropped or failed,
+         every unanswered one still attached to the slot *)
+      let impl_st = if statuses = "-" then [] else List.map (fun c -> n_of_int (Char.code c - 48)) (chars_of_string statuses) in
+      let last_view = List.fold_left (fun _ v -> v) "0:0:0:0:-:0:-" (String.split_on_char ',' views) in
+      let pending = match String.split_on_char ':' last_view with
+        | [_; _; _; _; _; resp; _] -> n_of_hex resp | _ -> n_of_int 0 in
+      (* "the published state reflects the latest fetched topology": the peer list in the slot must be the
+         newest one fetched since the consumer last took a value (latest_peers, the specification) *)
+      let rec firstn k l = if k = 0 then [] else match l with x :: r -> x :: firstn (k - 1) r | [] -> [] in
+      let stale = ref "" in
+      List.iteri (fun i v ->
+          if !stale = "" then
+            match String.split_on_char ':' v with
+            | [kind; _; pv; _; _; _; _] ->
+              let expect = match latest_peers (n_of_int 1) (firstn (i + 1) ops) None with
+                | Some p -> hex_of_n p | None -> "0" in
+              if (kind = "2" || kind = "3" || expect <> "0") && pv <> expect then
+                stale := Printf.sprintf "step %d: the slot holds peer list %s, the newest fetched is %s" i pv expect
+            | _ -> ()) (String.split_on_char ',' views);
+      if !stale <> "" then "viol " ^ !stale ^ "; model=" ^ model_views
+      else if not (status_ok impl_st pending) then
+        "viol a refresh response was dropped, failed, or is neither answered nor attached to the slot; model=" ^ model_views ^ " " ^ model_st
+      else "diff model=" ^ model_views ^ " " ^ model_st
+    end
+  | ["Y"; script], [obs] ->
+    (* eager waker: a token "!obs/wakes" is a poll made by the waker during the preceding operation *)
+    let toks = String.split_on_char ',' obs in
+    let base_ops = parse_script script in
+    let rec weave ops toks acc = match ops, toks with
+      | [], [] -> List.rev acc
+      | _, t :: tr when String.length t > 0 && t.[0] = '!' -> weave ops tr (OPoll :: acc)
+      | o :: orest, _ :: tr -> weave orest tr (o :: acc)
+      | _ -> failwith "observation tokens do not match the script" in
+    let ops = weave base_ops toks [] in
+    let strip t = if String.length t > 0 && t.[0] = '!' then String.sub t 1 (String.length t - 1) else t in
+    let impl_tr = List.map (fun t -> parse_obs (strip t)) toks in
+    (match run_ops ops init with
+     | None -> "error model: script applies an operation that is not available"
+     | Some tr ->
+       if tr = impl_tr then "ok"
+       else if not (spec_check ops a_init impl_tr) then "viol spec_check=false model=" ^ show_trace tr
+       else "diff model=" ^ show_trace tr)
   | [("X" | "Q"); script], [obs] ->
     let ops = parse_script script in
     let impl_tr = List.map parse_obs (String.split_on_char ',' obs) in
@@ -62,30 +132,34 @@ let verdict case impl =
        else if not (spec_check ops a_init impl_tr) then "viol spec_check=false model=" ^ show_trace tr
        else "diff model=" ^ show_trace tr)
   | ["S"; _serial; n; _mode], [batches; fin] ->
-    if fin = "hang" then "viol the consumer did not see the end of the stream within the time limit (lost wake-up or lost last update)"
+    if fin = "hang" then "viol twice in a row the consumer made no progress for 30 s after the producer had dropped the sender (lost wake-up or lost last update)"
     else begin
       let bs = parse_batches batches in
       if stress_ok (n_of_hex n) bs && fin = "end" then "ok"
       else "viol stress_ok=false: the received batches are not exactly the tags 0..n-1 in order"
     end
-  | ["Z"; _serial; rounds; concurrent], [toks] ->
-    (* user-visible half of the property: every requested refresh is answered (successfully) and the
-       published cluster state shows the latest topology of the mock cluster *)
-    let rounds = int_of_string ("0x" ^ rounds) and concurrent = int_of_string ("0x" ^ concurrent) in
+  | ["Z"; _serial; rounds; _concurrent; _mode], [toks] ->
+    (* user-visible half of the property, evaluated on what the session reports (the runner has already
+       repeated a scenario with an unexpected outcome once; this is the repetition):
+       a requested refresh that is never answered (timeout / panic because its response sender was dropped)
+       or a published state that does not show the latest topology = viol; a refresh answered with an error
+       is an answer - unexpected on a healthy mock cluster, so diff *)
+    let rounds = int_of_string ("0x" ^ rounds) in
     let toks = if toks = "-" then [] else String.split_on_char ',' toks in
     if List.length toks <> rounds then "diff shape: expected " ^ string_of_int rounds ^ " rounds"
     else begin
-      let bad = ref "" in
+      let viol = ref "" and diff = ref "" in
       List.iteri (fun i tok ->
           match List.map (fun x -> int_of_string ("0x" ^ x)) (String.split_on_char '/' tok) with
-          | [completed; ok; seen; mock] ->
-            if !bad = "" then begin
-              if completed <> concurrent then bad := Printf.sprintf "round %d: %d of %d refresh_metadata calls were answered" i completed concurrent
-              else if ok <> concurrent then bad := Printf.sprintf "round %d: %d of %d refresh_metadata calls succeeded" i ok concurrent
-              else if seen <> mock then bad := Printf.sprintf "round %d: the cluster state shows %d nodes, the mock cluster has %d" i seen mock
-            end
-          | _ -> if !bad = "" then bad := "bad token " ^ tok) toks;
-      if !bad = "" then "ok" else "viol " ^ !bad
+          | [asked; completed; ok; seen; mock; _together] ->
+            if completed <> asked then
+              (if !viol = "" then viol := Printf.sprintf "round %d: %d of %d refresh_metadata calls were answered" i completed asked)
+            else if seen <> mock then
+              (if !viol = "" then viol := Printf.sprintf "round %d: the cluster state shows %d nodes, the mock cluster has %d" i seen mock)
+            else if ok <> asked then
+              (if !diff = "" then diff := Printf.sprintf "round %d: %d of %d refresh_metadata calls succeeded" i ok asked)
+          | _ -> if !diff = "" then diff := "bad token " ^ tok) toks;
+      if !viol <> "" then "viol " ^ !viol else if !diff <> "" then "diff " ^ !diff else "ok"
     end
   | _ -> "error unknown-case"
 
